@@ -1423,6 +1423,31 @@ func stopFacts(f *facts) {
 		})
 	}
 	f.strs["stop_connect_branch"] = cb
+	f.note["stop_pipeline_teardown"] = "obase.PrepareSequentialPipeline: the calls made when the processing worker has stopped (each buffer's Destroy carries its own timeouts; nothing here may wait without a limit)"
+	var td []string
+	if fd := fn("orchestrate/obase/pipelines.go", "PrepareSequentialPipeline", ""); fd != nil {
+		inspect(fd.Body, func(n ast.Node) bool {
+			c, ok := n.(*ast.CallExpr)
+			if !ok || src(c.Fun) != "procWorker.Stopped().Next" || len(c.Args) != 1 {
+				return true
+			}
+			inspect(c.Args[0], func(m ast.Node) bool {
+				switch x := m.(type) {
+				case *ast.GoStmt:
+					td = append(td, "go "+src(x.Call.Fun))
+					return false
+				case *ast.CallExpr:
+					t := src(x.Fun)
+					if strings.HasSuffix(t, ".Destroy") || t == "onStopped" || strings.Contains(t, "Wait") || strings.HasSuffix(t, ".Stopped") {
+						td = append(td, t)
+					}
+				}
+				return true
+			})
+			return false
+		})
+	}
+	f.strs["stop_pipeline_teardown"] = td
 	const sess = "output/baseoutput/clientsession.go"
 	const work = "output/baseoutput/clientworker.go"
 	f.note["stop_client_selects"] = "per function: 1 if every select statement has a case on inputClosed / a closed-channel check of inputChannel, else 0"
